@@ -1,4 +1,7 @@
+mod alloc;
 mod c01;
+mod c02;
+mod probe;
 mod c03;
 mod c08;
 mod c09;
@@ -13,11 +16,17 @@ mod universe;
 
 use vcore::report::Report;
 
+#[global_allocator]
+static GLOBAL: alloc::Counting = alloc::Counting;
+
 fn main() {
     let args: Vec<String> = std::env::args().collect();
     let which = args.get(1).map(|s| s.as_str()).unwrap_or("");
     let threads = std::env::var("VERIF_THREADS").ok().and_then(|s| s.parse().ok()).unwrap_or(16usize);
     rayon::ThreadPoolBuilder::new().num_threads(threads).stack_size(64 << 20).build_global().unwrap();
+    if which == "probe" {
+        std::process::exit(probe::child_main());
+    }
     let code = match which {
         "c01" => {
             let rep = Report::new("C01", "exploration");
@@ -62,6 +71,11 @@ fn main() {
         "c14" => {
             let rep = Report::new("C14", "model_checking");
             let cov = c14::run(&rep);
+            rep.finish(cov)
+        }
+        "c02" => {
+            let rep = Report::new("C02", "exploration");
+            let cov = c02::run(&rep);
             rep.finish(cov)
         }
         _ => {
